@@ -21,6 +21,7 @@ from urllib.parse import quote, unquote, urljoin
 from hypothesis import strategies as st
 
 from vlib.core import Campaign, hyp_campaign
+from vlib import fuzz as F
 
 PROPERTY = "C15"
 RULE = ("strings from a redirect grammar: redirect keys (frozen list) and look-alikes placed in query (first / later "
@@ -302,8 +303,13 @@ def _strategy(tier):
     return st.one_of(nested, nested, cache, arbitrary).map(lambda s: {"kind": "redirect", "s": s})
 
 
+FUZZ_TARGETS = {"redirect": (lambda data: {"kind": "redirect", "s": F.text_from_bytes(data)}, _nt, None)}
+
+
 def campaigns(tier, seed):
     return [
+        Campaign("redirect-coverage-guided", F.fuzz_campaign("redirect", runs=(2000, 150000), max_len=96, dictionary=F.URL_DICT + ["redirect_to=", "target=", "redir=", "link=", "orig=", "goto=", "l=", "%2F", "%3F", "%3D", "%26", "%252F", "bc.marfeel.com/", "bc.marfeelcache.com/amp/", "youtube.com/redirect?", "/url?", "&amp;"], corpus=F.URL_CORPUS), "atheris",
+                 bounds="libFuzzer over UTF-8 strings <= 96 bytes"),
         Campaign("redirect-grammar", _grammar_enum, "enumeration", exhaustive=True,
                  bounds="12 positions x 23 keys x 21 targets x 3/4 encoding levels + self-referential / nested (depth 2-4) shapes"),
         Campaign("deep-chains", _deep, "enumeration", exhaustive=True, bounds="4 redirect layers nested 3..1200 (quick) / ..20000 (thorough) times x 2 final targets"),
